@@ -119,6 +119,11 @@ func c06cases(thorough bool) []c06case {
 		{"absent", nil, false, nil},
 		{"other-type", Doc("Note", Follow1, "attributedTo", Alice, "content", "not a follow"), false, nil},
 		{"other-actor", Doc("Follow", Follow1, "actor", Bob, "object", Carol), false, nil},
+		// an activity of the local actor that names the peer as object but is not a Follow
+		{"stored-like-not-follow", Doc("Like", Follow1, "actor", Alice, "object", L{Carol, Dave}), false, nil},
+		{"stored-block-not-follow", Doc("Block", Follow1, "actor", Alice, "object", L{Carol, Dave, Erin}), false, nil},
+		{"stored-offer-not-follow", Doc("Offer", Follow1, "actor", Alice, "object", Carol, "target", Carol), false, nil},
+		{"stored-create-not-follow", Doc("Create", Follow1, "actor", Alice, "object", Emb("Note", Follow1+"/n", "content", "x"), "to", Carol), false, nil},
 		{"lacks-accepting-actor", Doc("Follow", Follow1, "actor", Alice, "object", Erin), true, []string{Erin}},
 	}
 	claimed := Doc("Follow", Follow1, "actor", Alice, "object", L{Carol, Dave, Erin}) // what the peer claims
@@ -296,7 +301,7 @@ func jsonNormV(v interface{}) interface{} { return deepCopy(v) }
 func C06(tier string) int {
 	res := NewResult("C06", tier, "exploration")
 	cases := c06cases(res.Thorough())
-	res.Rule = fmt.Sprintf("(a) Update/Delete with the activity id on a host (default and non-default port) and every sequence of 1..%d object ids over hosts {same, other domain, other port, explicit default port, sub-domain, upper-case, parent domain}, embedded / IRI / embedded Link or Mention carrying the id plus an href on the activity's own host, keeping the sequences that contain a host that must be refused; (b) Accept with the stored Follow in {ours, ours with two objects, ours with two actors, absent, other type, other actor, lacking the accepting actor} x Follow embedded / by IRI (the peer's copy always supports its claim) x 10 accepting-actor sets (IRI, embedded actor, Link / Mention with id and differing href, Mention with href only); (c) Undo with actor sets equal / superset / subset / disjoint / overlapping, embedded / IRI, 1..2 undone activities; (c') the same with Link-spelled actors whose id and href disagree; (d) every sequence of 1..3 activity actors (IRI / embedded actor / Link with id and another href / Mention with href only) x blocked subsets, and an erroring block check; %d requests; oracle: refusal implies the request fails and the state differs from the initial one at most by the inbox entry", map[bool]int{false: 2, true: 3}[res.Thorough()], len(cases))
+	res.Rule = fmt.Sprintf("(a) Update/Delete with the activity id on a host (default and non-default port) and every sequence of 1..%d object ids over hosts {same, other domain, other port, explicit default port, sub-domain, upper-case, parent domain}, embedded / IRI / embedded Link or Mention carrying the id plus an href on the activity's own host, keeping the sequences that contain a host that must be refused; (b) Accept with the stored Follow in {ours, ours with two objects, ours with two actors, absent, a Note, another actor's, lacking the accepting actor, a Like / Block / Offer / Create of the local actor naming the peer} x Follow embedded / by IRI (the peer's copy always supports its claim) x 10 accepting-actor sets (IRI, embedded actor, Link / Mention with id and differing href, Mention with href only); (c) Undo with actor sets equal / superset / subset / disjoint / overlapping, embedded / IRI, 1..2 undone activities; (c') the same with Link-spelled actors whose id and href disagree; (d) every sequence of 1..3 activity actors (IRI / embedded actor / Link with id and another href / Mention with href only) x blocked subsets, and an erroring block check; %d requests; oracle: refusal implies the request fails and the state differs from the initial one at most by the inbox entry", map[bool]int{false: 2, true: 3}[res.Thorough()], len(cases))
 	res.Assumptions = []string{"hosts differing only in case or by an explicit default port may be accepted or refused", "positive application for equal hosts is C04's"}
 	var mu sync.Mutex
 	chunk := 100
